@@ -172,3 +172,13 @@ Example to_standard_ex :
   to_pitch_abs c (mkP KC Abs 1 1 None None) = Some (Some 23) /\
   note_to_standard c (mkP KB Abs 0 0 None None) = Some (mkP KS Abs 2 0 None None).
 Proof. repeat split; vm_compute; reflexivity. Qed.
+
+(* to_scale_note keeps the pitch of every non-relative pitched note - scale, chromatic, chord-tone, bass-tone or absolute, with any
+   per-note mode or accidental - in every chord: the rewritten note carries neither mode nor accidental and sounds the same pitch *)
+Theorem to_scale_note_keeps_pitch c n p : elem_ok c -> to_pitch_abs c n = Some (Some p) ->
+  exists n', to_scale_note c n = Some n' /\ to_pitch_abs c n' = Some (Some p) /\ pdir n' = Abs /\ pacc n' = None /\ pmode n' = None.
+Proof.
+  intros He Hp. unfold to_scale_note. rewrite Hp.
+  destruct (parse_roundtrip c p He) as (n' & H1 & H2 & H3 & H4 & H5 & _).
+  exists n'. repeat split; assumption.
+Qed.
